@@ -151,12 +151,34 @@ def state_dict(ms) -> dict[str, list[str]]:
 
 
 def run_with_edits(pcode: str, edits: list[tuple[int, list]], total: int, horizon: int | None = None,
-                   injects: list | None = None):
-    """Returns dict with per-edit info and the final marks / exec counts."""
+                   injects: list | None = None, requests: list | None = None):
+    """Returns dict with per-edit info and the final marks / exec counts.
+    `requests`: [[tick, "cancel" | "force", selector]] -- a user's cancel / force of a run-log item (as the frontend
+    does it: by the item's instance id); selector = the item's name, or a number in [0,1) picking among the items
+    that are cancellable / forcible at that tick."""
     from harness.engine_run import EngineRun
     run = EngineRun(pcode)
     info = []
+    req_info = []
     injects = sorted([list(x) for x in (injects or [])], key=lambda x: x[0])
+    requests = sorted([list(x) for x in (requests or [])], key=lambda x: x[0])
+
+    def do_request(kind: str, sel):
+        items = [i for i in run.engine.tracking.get_runlog().items
+                 if (i.cancellable if kind == "cancel" else i.forcible)]
+        if isinstance(sel, str):
+            items = [i for i in items if i.name == sel]
+            item = items[0] if items else None
+        else:
+            item = items[int(sel * len(items))] if items else None
+        if item is None:
+            return
+        mm = run.engine.method_manager
+        before = state_dict(mm.get_method_state())
+        res = run.cancel(item.id) if kind == "cancel" else run.force(item.id)
+        req_info.append({"kind": kind, "item": item.name, "res": res, "tick": t, "before": before,
+                         "after": state_dict(run.engine.method_manager.get_method_state()), "next": None,
+                         "detached": bool(info and any(e["res"] == "ok" for e in info))})
     per_tick_marks: list[list[str]] = []
     try:
         snap = None
@@ -167,7 +189,13 @@ def run_with_edits(pcode: str, edits: list[tuple[int, list]], total: int, horizo
             while t < limit:
                 while injects and injects[0][0] <= t:
                     run.inject(injects.pop(0)[1])
+                while requests and requests[0][0] <= t:
+                    _, kind, sel = requests.pop(0)
+                    do_request(kind, sel)
                 snap = run.tick()
+                for r in req_info:
+                    if r["next"] is None and r["tick"] == t:
+                        r["next"] = state_dict(run.engine.method_manager.get_method_state())
                 per_tick_marks.append(marks_of(snap))
                 t += 1
         for (at, script) in sorted(edits, key=lambda e: e[0]):
@@ -209,7 +237,7 @@ def run_with_edits(pcode: str, edits: list[tuple[int, list]], total: int, horizo
         horizon = last_edit + total + 20 if horizon is None else horizon
         tick_to(horizon)
         accepted = [e for e in info if e["res"] == "ok"]
-        return {"edits": info, "ticks": t, "marks": marks_of(snap), "per_tick_marks": per_tick_marks,
+        return {"edits": info, "requests": req_info, "ticks": t, "marks": marks_of(snap), "per_tick_marks": per_tick_marks,
                 "method_ends": run.method_ends,
                 "exec": Counter(e[1] for e in run.exec_log if e[0] == "init"), "exec_log": list(run.exec_log),
                 "raised": run.tick_errors, "status": snap["tags"].get("Method Status"),
@@ -224,9 +252,25 @@ def run_with_edits(pcode: str, edits: list[tuple[int, list]], total: int, horizo
 def oracle(case) -> list[Failure]:  # noqa: C901
     fails: list[Failure] = []
     total = case["total"]
-    a = run_with_edits(case["pcode"], case["edits"], total, injects=case.get("injects"))
+    a = run_with_edits(case["pcode"], case["edits"], total, injects=case.get("injects"), requests=case.get("requests"))
     first = True
     accepted = [e for e in a["edits"] if e["res"] == "ok"]
+    # (G) a cancel / force request takes nothing out of the reported method state: a line that had started stays
+    #     reported as started or executed -- right after the request and after the next tick
+    for r in a["requests"]:
+        if r["res"] != "ok" or r["detached"]:
+            continue
+        was = r["before"]["started"] + r["before"]["executed"] + r["before"]["failed"]
+        for when, st in (("right after", r["after"]), ("one tick after", r["next"])):
+            if st is None:
+                continue
+            now = st["started"] + st["executed"] + st["failed"]
+            lost = [i for i in was if i not in now]
+            if lost:
+                fails.append(Failure(f"method-state-lost-after-{r['kind']}", case,
+                                     f"{r['kind']} of {r['item']!r} at tick {r['tick']}: lines {lost} were reported "
+                                     f"before the request and are not reported {when}"))
+                break
     for e in a["edits"]:
         sfx = "" if first else "-after-earlier-edit"
         if e["res"] == "ok":
@@ -277,7 +321,8 @@ def oracle(case) -> list[Failure]:  # noqa: C901
         if e["res"] == "ok":
             first = False
     premise = not any(e["changed_started"] or e["deleted_started"] for e in accepted)
-    if accepted and premise and well_indented(a["final_pcode"]):
+    # (a cancelled / forced instruction makes the run differ from a plain run of the final method: no comparison)
+    if accepted and premise and well_indented(a["final_pcode"]) and not any(r["res"] == "ok" for r in a["requests"]):
         # (C, D) compare with the final method loaded from the start
         from harness.engine_run import EngineRun
         ref = EngineRun(a["final_pcode"])
@@ -315,7 +360,8 @@ def oracle(case) -> list[Failure]:  # noqa: C901
                                          f"(got, reference): {less}"))
     if not accepted and a["edits"]:
         # rejected edits must not affect the run: the same run without them, tick for tick
-        b = run_with_edits(case["pcode"], [], total, horizon=a["ticks"], injects=case.get("injects"))
+        b = run_with_edits(case["pcode"], [], total, horizon=a["ticks"], injects=case.get("injects"),
+                           requests=case.get("requests"))
         if b["per_tick_marks"] != a["per_tick_marks"] or b["exec_log"] != a["exec_log"]:
             fails.append(Failure("rejected-edit-affected-run", case,
                                  f"marks with rejected edit {a['marks']} vs without {b['marks']}; "
@@ -364,6 +410,19 @@ def template_cases() -> list[dict]:
                             "total": 60})
                 out.append({"pcode": sh, "injects": [[8, sn]], "edits": [[8 + gap, [["change", 0.01, "Mark: nope"]]]],
                             "total": 60})
+    # a user's cancel / force of a Watch, Alarm, UOD command or Wait item, then an edit that changes / removes / leaves
+    # alone exactly that line (a started line stays a started line when it is cancelled)
+    req_shapes = [("Mark: a\nWatch: T0 > 5\n    Mark: w\nWait: 3s\nMark: b", "Watch: T0 > 5", 1, ("cancel", "force"), "Watch: T0 > 6"),
+                  ("Mark: a\nAlarm: T0 > 5\n    Mark: w\nWait: 3s\nMark: b", "Alarm: T0 > 5", 1, ("cancel", "force"), "Alarm: T0 > 6"),
+                  ("Mark: a\nCmdC\nWait: 3s\nMark: b", "CmdC", 1, ("cancel", "force"), "CmdA"),
+                  ("Mark: a\nWait: 3s\nMark: b", "Wait: 3s", 1, ("force",), "Wait: 4s")]
+    for sh, item, k, kinds, other in req_shapes:
+        n = len(sh.splitlines())
+        for kind in kinds:
+            for at in (6, 9):
+                for gap in (0, 1, 5):
+                    for script in ([["change", (k + 0.5) / n, other]], [["delete", (k + 0.5) / n]], [["append", "Mark: z"]]):
+                        out.append({"pcode": sh, "requests": [[at, kind, item]], "edits": [[at + gap, script]], "total": 60})
     return out
 
 
@@ -383,6 +442,10 @@ def gen_oracle_cases(ctx: Check, n: int) -> list[dict]:
             # neutral snippets only (marks with names of their own, waits): the comparison is about the method's lines
             at = max(1, edits[0][0] - rng.randrange(0, 6))
             c["injects"] = [[at, rng.choice(SNIPPETS)]]
+        if rng.random() < 0.3:
+            # a user's cancel / force of whatever run-log item allows it, some ticks before the first edit
+            c["requests"] = [[max(1, edits[0][0] - rng.randrange(0, 10)), rng.choice(["cancel", "force"]), rng.random()]
+                             for _ in range(rng.choice([1, 1, 2]))]
         out.append(c)
     return out
 
@@ -400,6 +463,15 @@ def macro_stream_cases() -> list[dict]:
         for sc in scripts:
             ops = [tick(i) for i in range(at)] + [["edit", sc]] + [tick(at + i) for i in range(12)]
             out.append({"pcode": pcode, "ops": ops, "keep_indent": True})
+    # a Watch (node 2 of 6, line 1 of 5) cancelled / forced through tracking, then changed, deleted or left alone
+    pcode = "Mark: a\nWatch: T0 > 5\n    Mark: w\nWait: 3s\nMark: b"
+    for kind in ("cancel", "force"):
+        for at in (4, 7):
+            for gap in (0, 2):
+                for sc in ([["change", 0.3, "Watch: T0 > 6"]], [["delete", 0.3]], [["append", "Mark: z"]]):
+                    ops = [tick(i) for i in range(at)] + [[kind, 0.4]] + [tick(at + i) for i in range(gap)] + \
+                          [["edit", sc]] + [tick(at + gap + i) for i in range(10)]
+                    out.append({"pcode": pcode, "ops": ops, "keep_indent": True})
     return out
 
 
@@ -436,6 +508,8 @@ def run(ctx: Check) -> int:
         ctx.count("oracle:edits=%d" % len(c["edits"]))
         if c.get("injects"):
             ctx.count("oracle:with-injected-code")
+        if c.get("requests"):
+            ctx.count("oracle:with-cancel-or-force-before-edit")
     ctx.monitor(cases, oracle, impl_timeout=120)
     return ctx.finish(search=lambda c: c.monitor(gen_oracle_cases(c, c.n(100, 600)), oracle, impl_timeout=120))
 
